@@ -273,6 +273,10 @@ func qeMain(args []string) int {
 			}
 			gen := &qeGen{r: rnd.fork(), ds: ds, pFilter: prof.pFilter, pStats: prof.pStats, pSort: prof.pSort, pLimit: prof.pLimit, pAuth: prof.pAuth,
 				pBackends: prof.pBackends, pWrapped: prof.pWrapped, pGrouped: prof.pGrouped, pIndexLeaf: prof.pIndexLeaf, maxDepth: prof.maxDepth, tables: prof.tables, hist: meta.Histogram}
+			if prof.cluster {
+				// the table's default order with a small window: every node cuts its part at Limit+Offset
+				gen.pCutoff = 30
+			}
 			svcStrict, grpStrict := false, true
 			svcAuth, grpAuth := "", ""
 			if prof.pAuth > 50 {
@@ -287,8 +291,17 @@ func qeMain(args []string) int {
 			if prof.cluster {
 				nNodes := 2 + rnd.intn(2)
 				assign = make([][]string, nNodes)
-				for _, bk := range ds.Backends {
+				pile := len(ds.Backends) >= 3 && rnd.chance(1, 2)
+				for i, bk := range ds.Backends {
 					k := rnd.intn(nNodes)
+					if pile {
+						// one backend on the contacted node, all others together on a partner node
+						// (which has to merge them before it cuts its part of the answer)
+						k = 1
+						if i == 0 {
+							k = 0
+						}
+					}
 					assign[k] = append(assign[k], bk.Key)
 				}
 			}
